@@ -1,12 +1,13 @@
 """C19 - each iteration samples with the state derived from the previous one.
 Spec: Session.tla (StateAfter / NextState threading), MC_Session, Trace_Session (recorded = state of `done`, usedOk, chkstate = derived)."""
 import vt
+import mpicommon
 from sessioncommon import run_session, histories, BUILDS, ACTIONS  # noqa: F401
 
 LEVEL = "model_checking"
 
 
-def run(chk, replay=None):
+def run_main(chk, replay=None):
     chk.cov["checker_cmd"] = "tlc MC_Session; tlc Trace_Session (TRACE=out/C19/trace.ndjson)"
     chk.cov["trusted_base"] = ["TLC", "the integrand reconstructs the sampling state from what it sees: bins / point / weight against the grid (VEGAS), "
                                "weight = 1 / sum alpha_j p_j against the weights (multi-channel), 8-16 eps",
@@ -35,6 +36,15 @@ def run(chk, replay=None):
         if r2.rc == 0:
             raise vt.MachineryError("binding self-test: corrupted trace accepted")
         chk.cov["binding_selftest"] = "recorded-state id changed at event %d: rejected (matched %s)" % (i + 1, r2.matched)
+
+
+def run(chk, replay=None):
+    if mpicommon.is_mpi_replay(replay):
+        mpicommon.mpi_leg(chk, "C19:mpi", replay=replay)
+        return
+    run_main(chk, replay=replay)
+    if not replay and not chk.violations:
+        mpicommon.legs(chk, "C19:mpi", big=False)
 
 
 def replay(chk, path):
